@@ -58,3 +58,19 @@ def Res.toJson (r : Res) : Json :=
               ("nt", r.nontrivial)]
 
 end Drv
+
+namespace Ops
+open Lean
+
+def implStr (j : Json) : Str :=
+  match j.getObjVal? "impl" with
+  | .ok (Json.str s) => s.toList
+  | _ => []
+
+def implIsStr (j : Json) : Bool :=
+  match j.getObjVal? "impl" with
+  | .ok (Json.str _) => true
+  | _ => false
+
+
+end Ops
